@@ -1088,6 +1088,63 @@ theorem reachable_acyclic {σ} (h : Reachable σ) : WF σ ∧ Acyclic σ := by
   | unify _ hu ih => exact (acyclic_invariant ih.1 ih.2 hu).symm
 
 
+/-! ### completeness, as far as it holds -/
+
+theorem unifyList_refl {rec : Store → Ty → Ty → Res} {σ} :
+    ∀ ts : List Ty, (∀ t, t ∈ ts → rec σ t t = some (none, σ)) → unifyList rec σ ts ts = some (none, σ)
+  | [], _ => rfl
+  | t :: ts, H => by
+    simp only [unifyList, H t (by simp)]
+    exact unifyList_refl ts (fun u hu => H u (by simp [hu]))
+
+/-- a normal form unifies with itself, with the fuel that normalises it plus one, and the store is
+left as it was -/
+theorem unifyF_refl {σ} (hW : WF σ) : ∀ f x, normF f σ x = some x → unifyF (f+1) σ x x = some (none, σ)
+  | 0, _, h => by simp at h
+  | f+1, x, h => by
+    have IH := unifyF_refl hW f
+    have IHL : ∀ ts, mapO (normF f σ) ts = some ts → unifyList (unifyF (f+1)) σ ts ts = some (none, σ) :=
+      fun ts hm => unifyList_refl ts (fun t ht => IH t (mapO_fix_mem hm ht))
+    have hu : unifyF (f+2) σ x x = unifyNorm (unifyF (f+1)) σ x x := by simp [unifyF, h]
+    rw [hu]
+    rcases normF_succ_cases h with ⟨v, u, rfl, hv, hu⟩ | ⟨v, rfl, hv, e⟩ | ⟨ts, ts', rfl, hm, e⟩ |
+      ⟨u, args, u', args', rfl, hu, hm, e⟩ | ⟨n, e1, e', rfl, he, e⟩ | ⟨e1, e', rfl, he, e⟩ |
+      ⟨e1, e', rfl, he, e⟩ | ⟨ps, r, ps', r', rfl, hm, hr, e⟩ | ⟨hl, _⟩
+    · have hub := normF_unbound hW f _ _ v hu (by simp [occursOk])
+      rw [hub.1, hub.2] at hv; cases hv
+    · simp [unifyNorm, varVarArm, Store.unifyVarVar, ok]
+    · injection e with e; subst e
+      simp only [unifyNorm, unifyCtor]; simp [IHL _ hm]
+    · injection e with e1 e2; subst e1; subst e2
+      simp only [unifyNorm, unifyCtor]; simp [IH _ hu, IHL _ hm]
+    · injection e with e1 e2; subst e2
+      simp only [unifyNorm, unifyCtor]; simp [IH _ he]
+    · injection e with e1; subst e1
+      simp only [unifyNorm, unifyCtor]; simp [IH _ he]
+    · injection e with e1; subst e1
+      simp only [unifyNorm, unifyCtor]; simp [IH _ he]
+    · injection e with e1 e2; subst e1; subst e2
+      simp only [unifyNorm, unifyCtor]; simp [IHL _ hm, IH _ hr]
+    · cases x <;> simp_all [isLeaf, unifyNorm, unifyCtor, ok]
+
+/-- **Completeness, partial.**  Two types that already have the same normal form unify (given fuel),
+and the call leaves the store exactly as it was.  What is missing for full completeness — "if some
+substitution extending `σ` unifies `l` and `r` then `unify` does not fail" — is false for the real
+code as it stands (`incomplete_nullary_app`, rigid `TParam`s) and is not proved for the remaining
+fragment. -/
+theorem unify_complete_partial {σ l r x} (hW : WF σ) (hl : NF σ l x) (hr : NF σ r x) :
+    ∃ f, unifyF f σ l r = some (none, σ) := by
+  obtain ⟨f1, h1⟩ := hl
+  obtain ⟨f2, h2⟩ := hr
+  have a1 := normF_le h1 (Nat.le_max_left f1 f2)
+  have a2 := normF_le h2 (Nat.le_max_right f1 f2)
+  have fx := normF_idem hW _ _ _ a1
+  refine ⟨max f1 f2 + 1, ?_⟩
+  have := unifyF_refl hW _ _ fx
+  simp only [unifyF, fx] at this
+  simp only [unifyF, a1, a2]
+  exact this
+
 /-! ## Non-vacuity, and what the real code does NOT guarantee -/
 
 section Examples
